@@ -170,6 +170,7 @@ def _c11_vm_goal(case, out):
             else:
                 ops.append("PDir %s %s %s" % (title, _vm_list(tms, "N"), _vm_list(es, "entry")))
     verdicts, _, listing = out.partition("|")
+    listing = listing.partition("|X")[0]
     oks = _vm_list(["true" if c == "O" else "false" for c in verdicts[0::9]], "bool")
     paths, views = [], []
     for item in (listing.split(",") if listing else []):
